@@ -3,6 +3,9 @@ package protocol
 import (
 	"bytes"
 	"hash/crc32"
+
+	client "github.com/liftbridge-io/liftbridge-api/v2/go"
+	pb "github.com/golang/protobuf/proto"
 )
 
 // VerifC14CheckEnvelope: any byte string, any expected type: checkEnvelope
@@ -42,5 +45,111 @@ func VerifC14CheckEnvelope() {
 			want := Encoding.Uint32(data[8:12])
 			vAssert(crc32.Checksum(data[12:], crc32cTable) == want, "CRC flag => stored checksum matches the payload")
 		}
+	}
+}
+
+// ---- the typed wrappers -------------------------------------------------
+
+var vPBDecoded [][]byte // payloads handed to the protobuf decoder stand-in
+
+type vPair struct {
+	name      string
+	marshal   func() ([]byte, error)
+	unmarshal func([]byte) error
+}
+
+func vPairs() []vPair {
+	return []vPair{
+		{"Publish", func() ([]byte, error) { return MarshalPublish(&client.Message{}) }, func(b []byte) error { _, e := UnmarshalPublish(b); return e }},
+		{"Ack", func() ([]byte, error) { return MarshalAck(&client.Ack{}) }, func(b []byte) error { _, e := UnmarshalAck(b); return e }},
+		{"ServerInfoRequest", func() ([]byte, error) { return MarshalServerInfoRequest(&ServerInfoRequest{}) }, func(b []byte) error { _, e := UnmarshalServerInfoRequest(b); return e }},
+		{"ServerInfoResponse", func() ([]byte, error) { return MarshalServerInfoResponse(&ServerInfoResponse{}) }, func(b []byte) error { _, e := UnmarshalServerInfoResponse(b); return e }},
+		{"PropagatedRequest", func() ([]byte, error) { return MarshalPropagatedRequest(&PropagatedRequest{}) }, func(b []byte) error { _, e := UnmarshalPropagatedRequest(b); return e }},
+		{"PropagatedResponse", func() ([]byte, error) { return MarshalPropagatedResponse(&PropagatedResponse{}) }, func(b []byte) error { _, e := UnmarshalPropagatedResponse(b); return e }},
+		{"PartitionStatusRequest", func() ([]byte, error) { return MarshalPartitionStatusRequest(&PartitionStatusRequest{}) }, func(b []byte) error { _, e := UnmarshalPartitionStatusRequest(b); return e }},
+		{"PartitionStatusResponse", func() ([]byte, error) { return MarshalPartitionStatusResponse(&PartitionStatusResponse{}) }, func(b []byte) error { _, e := UnmarshalPartitionStatusResponse(b); return e }},
+		{"ReplicationRequest", func() ([]byte, error) { return MarshalReplicationRequest(&ReplicationRequest{}) }, func(b []byte) error { _, e := UnmarshalReplicationRequest(b); return e }},
+		{"LeaderEpochOffsetRequest", func() ([]byte, error) { return MarshalLeaderEpochOffsetRequest(&LeaderEpochOffsetRequest{}) }, func(b []byte) error { _, e := UnmarshalLeaderEpochOffsetRequest(b); return e }},
+		{"LeaderEpochOffsetResponse", func() ([]byte, error) { return MarshalLeaderEpochOffsetResponse(&LeaderEpochOffsetResponse{}) }, func(b []byte) error { _, e := UnmarshalLeaderEpochOffsetResponse(b); return e }},
+		{"PartitionNotification", func() ([]byte, error) { return MarshalPartitionNotification(&PartitionNotification{}) }, func(b []byte) error { _, e := UnmarshalPartitionNotification(b); return e }},
+		{"RaftJoinRequest", func() ([]byte, error) { return MarshalRaftJoinRequest(&RaftJoinRequest{}) }, func(b []byte) error { _, e := UnmarshalRaftJoinRequest(b); return e }},
+		{"RaftJoinResponse", func() ([]byte, error) { return MarshalRaftJoinResponse(&RaftJoinResponse{}) }, func(b []byte) error { _, e := UnmarshalRaftJoinResponse(b); return e }},
+		{"ReplicationResponse", func() ([]byte, error) {
+			var buf bytes.Buffer
+			WriteReplicationResponseHeader(&buf)
+			buf.Write(make([]byte, 16))
+			return buf.Bytes(), nil
+		}, func(b []byte) error { _, _, _, e := UnmarshalReplicationResponse(b); return e }},
+	}
+}
+
+// VerifC14Wrappers: every typed Marshal*/Unmarshal* pair of the envelope
+// protocol, with the protobuf codec replaced by "any payload bytes" (encoder:
+// returns an arbitrary byte string; decoder: records what it is handed).
+// Encoding with one type and decoding with the same type hands the decoder
+// exactly the encoder's bytes; decoding with any OTHER type is refused (an
+// envelope is never confused with another kind); nothing panics.
+func VerifC14Wrappers() {
+	maxLen := vParam("maxpayload", 4)
+	n := vNondetInt("n")
+	vAssume(0 <= n && n <= maxLen)
+	n = vConcretize(n)
+	payload := vNondetBytes("payload", n)
+	vIntercept("github.com/golang/protobuf/proto.Marshal", func(m pb.Message) ([]byte, error) {
+		return append([]byte{}, payload...), nil
+	})
+	vIntercept("github.com/golang/protobuf/proto.Unmarshal", func(b []byte, m pb.Message) error {
+		vPBDecoded = append(vPBDecoded, append([]byte{}, b...))
+		return nil
+	})
+	pairs := vPairs()
+	k := vChoose(len(pairs))
+	data, err := pairs[k].marshal()
+	vAssert(err == nil, "marshalling succeeds")
+	if err != nil {
+		return
+	}
+	for j := range pairs {
+		vPBDecoded = nil
+		err := pairs[j].unmarshal(data)
+		if j == k {
+			vAssert(err == nil, "an envelope decodes with its own type")
+			if k < len(pairs)-1 {
+				vAssert(len(vPBDecoded) == 1, "the decoder is handed one payload")
+				if len(vPBDecoded) == 1 {
+					vAssert(bytes.Equal(vPBDecoded[0], payload), "the decoder is handed exactly the encoder's bytes")
+				}
+			}
+			vCover("same-type")
+		} else {
+			vAssert(err != nil, "an envelope is refused by the decoder of any other message type")
+			vAssert(len(vPBDecoded) == 0, "a refused envelope never reaches the protobuf decoder")
+			vCover("other-type")
+		}
+	}
+}
+
+// VerifC14ReplicationResponse: the hand-rolled replication response decoder on
+// an arbitrary byte string: total; when it accepts, the leader epoch, the high
+// watermark and the message data are the big-endian fields after the header.
+func VerifC14ReplicationResponse() {
+	maxLen := vParam("maxlen", 26)
+	n := vNondetInt("n")
+	vAssume(0 <= n && n <= maxLen)
+	n = vConcretize(n)
+	data := vNondetBytes("data", n)
+	epoch, hw, rest, err := UnmarshalReplicationResponse(data)
+	if err != nil {
+		vCover("rejected")
+		return
+	}
+	vCover("accepted")
+	hl := vConcretize(int(data[5]))
+	vAssert(hl >= 8, "accepted => header length covers the fixed header")
+	vAssert(n >= hl+16, "accepted => epoch and high watermark are present")
+	if hl >= 8 && n >= hl+16 {
+		vAssert(epoch == Encoding.Uint64(data[hl:hl+8]), "leader epoch = first 8 payload bytes")
+		vAssert(hw == int64(Encoding.Uint64(data[hl+8:hl+16])), "high watermark = next 8 payload bytes")
+		vAssert(bytes.Equal(rest, data[hl+16:]), "message data = the remaining bytes")
 	}
 }
